@@ -297,6 +297,15 @@ def main():
     items.append(((3, 2, 3), (1, 1), (3, 2, 'nu'), 'total+cold+eps0', None))
     items.append(((3, 2, 3), (1, 1), (3, 3, 'cu'), 'perturbed+hist', None))
     items.append(((3, 2, 3), (2, 1), (3, 2, 'nu'), 'perturbed+hist', None))
+    if not quick:
+        # larger, non-divisible extents on more process grids, every listed v space, both densities
+        for shape, grid in [((7, 3, 5), (3, 2)), ((7, 3, 5), (2, 3)), ((6, 2, 4), (4, 1)), ((5, 3, 7), (1, 4)), ((9, 2, 4), (4, 2))]:
+            for vs in [(1, 3, 'nu'), (2, 3, 'nu'), (3, 4, 'cu'), (4, 2, 'nu'), (5, 2, 'nu')]:
+                for mode in ('perturbed', 'total'):
+                    items.append((shape, grid, vs, mode, None))
+        for grid in [(2, 2), (3, 1), (1, 3)]:
+            for mode in ('perturbed+cold', 'perturbed+eps0', 'total+cold', 'perturbed+hist', 'total+hist', 'perturbed+cold+eps0+hist'):
+                items.append(((5, 2, 3), grid, (3, 3, 'cu'), mode, None))
     for cn in CANARIES:
         items.append(((3, 2, 3), (2, 1), (3, 3, 'cu'), 'perturbed', cn))
     caught = {}
@@ -314,7 +323,7 @@ def main():
     numenv.enable(extra_modules=[(ps, None), (m['init_funcs'], None)])
     run.stubs = sorted(set(numenv.STUBS)) + ['exp/tanh/sqrt: uninterpreted functions', 'mpi4py.MPI: lib/simmpi']
     numenv.disable()
-    run.bounds = dict(extents='(nr,ntheta,nz) = (3,2,3) quick / (4,2,3) thorough; nv from the v spline space', grids=[list(g) for g in grids],
+    run.bounds = dict(extents='(nr,ntheta,nz) = (3,2,3) quick / (4,2,3) thorough, plus (5,2,3),(8,2,3),(10,2,2); thorough also (7,3,5),(6,2,4),(5,3,7),(9,2,4) on grids up to 4x2 with v degrees 1-5; nv from the v spline space', grids=[list(g) for g in grids],
                       v_spaces='uniform cubic 3 cells + listed general spaces')
     run.outside = ['complex storage of rho (object arrays do not distinguish it)', 'rounding', 'larger extents']
     run.assumptions = ['exact reals for doubles', 'solver contracts of C08', 'equilibrium = pygyro f_eq at the global radius with exp/tanh/sqrt uninterpreted']
